@@ -2,7 +2,8 @@
 // ended at chosen points; afterwards live objects and open descriptors are counted (C10).
 //   case ::= ( kind ((request cut action) ..) destroy_at_end )
 //     kind: 0 default handler (404), 1 FilesystemHandler streaming a multi-buffer file, 2 QObjectHandler slot
-//           waiting for the whole body, 3 ProxyHandler (upstream = scripted server in the harness)
+//           waiting for the whole body, 3 ProxyHandler (upstream = scripted server in the harness), 4 handler that answers at once and
+//           closes the connection 60 ms later
 //     cut: request bytes sent before the action; action: 0 client aborts (RST), 1 client closes gracefully,
 //          2 client waits for the complete response, 3 server object destroyed now, 4 client reads some response then aborts,
 //          5 / 6 whole request, then [surplus] more bytes (4th element), then reset / orderly close
@@ -14,6 +15,8 @@
 #include <QTcpServer>
 #include <QTcpSocket>
 #include <QTemporaryDir>
+#include <QPointer>
+#include <QTimer>
 #include <qhttpengine/filesystemhandler.h>
 #include <qhttpengine/handler.h>
 #include <qhttpengine/proxyhandler.h>
@@ -49,6 +52,21 @@ static int perConnectionObjects(QObject *root)
     }
     return n;
 }
+
+// kind 4: answers at once and closes the connection some time later, when everything it wrote has long been flushed
+class LateCloseHandler : public Handler
+{
+public:
+    using Handler::Handler;
+protected:
+    void process(Socket *socket, const QString &) override
+    {
+        socket->setHeader("Content-Length", "2");
+        socket->write("ok");
+        QPointer<Socket> s(socket);
+        QTimer::singleShot(60, this, [s]() { if (s) s->close(); });
+    }
+};
 
 static Val run_life(const Val &c);
 static void warmUpOnce()
@@ -90,6 +108,7 @@ static Val run_life(const Val &c)
     case 1: handler = new FilesystemHandler(tmp.path(), &scope); break;
     case 2: { auto *h = new QObjectHandler(&scope); h->registerMethod("slot", [](Socket *s) { s->readAll(); s->writeError(Socket::OK); }, true); handler = h; break; }
     case 3: handler = new ProxyHandler(QHostAddress::LocalHost, upstream.serverPort(), &scope); break;
+    case 4: handler = new LateCloseHandler(&scope); break;
     default: handler = new Handler(&scope); break;
     }
     Server *server = new Server(handler);
